@@ -369,6 +369,9 @@ func judgeMem(o *c13Obs, st uasc.VerifChunkStats, recv, maxMsg, maxChunks uint32
 	case st.MaxPerID > perID:
 		o.MemKind = "bytes-per-request-id-exceed-MaxMessageSize-plus-one-chunk"
 		o.Mem = fmt.Sprintf("%d bytes buffered for one request id; MaxMessageSize %d + one chunk %d = %d", st.MaxPerID, maxMsg, recv, perID)
+	case st.MaxChunksPerID > int(maxChunks):
+		o.MemKind = "chunks-per-request-id-exceed-MaxChunkCount"
+		o.Mem = fmt.Sprintf("%d chunks buffered for one request id; MaxChunkCount %d", st.MaxChunksPerID, maxChunks)
 	case st.OpenIDs > n:
 		o.MemKind = "open-request-ids-unbounded"
 		o.Mem = fmt.Sprintf("%d request ids have buffered chunks; bound %d (server kind: MaxChunkCount; client kind: requests awaiting a response)", st.OpenIDs, n)
@@ -970,13 +973,16 @@ func floodsC13(thorough bool) []c13Case {
 			perSet := []int{1}
 			if m > 0 {
 				idsSet = append(idsSet, m, m+1)
-				perSet = append(perSet, m, m+1)
+				perSet = append(perSet, m, m+1, 3*m+2)
 			} else {
 				perSet = append(perSet, 4, 5)
 			}
 			idsSet = append(idsSet, many...)
 			for _, ids := range idsSet {
 				for _, per := range perSet {
+					if m > 0 && per == 3*m+2 && ids != 1 {
+						continue // the long stream is about what one request id may retain; many ids are the known finding
+					}
 					for _, full := range []bool{false, true} {
 						bytes := ids * per
 						if full {
